@@ -1851,7 +1851,15 @@ impl<K: AsRef<Key>> ServerError<K> {
         let mut builder = builder.additional();
         match self.0 {
             ServerErrorInner::Unsigned { error } => {
-                match MessageTsig::from_message(msg) {
+                // A format error is reported through the RCODE of the
+                // response (RFC 8945, sections 5.2 and 5.2.2.1), not
+                // through the error field of a TSIG record.
+                let tsig = if error == TsigRcode::FORMERR {
+                    Err(TsigError::Invalid)
+                } else {
+                    MessageTsig::from_message(msg)
+                };
+                match tsig {
                     Ok(tsig) => {
                         builder.push((
                             tsig.record.owner(),
